@@ -116,6 +116,7 @@ type trans struct {
 	assertDone    map[string]bool
 	invLines      map[int]map[string][]int
 	extraCallVars map[string]SV
+	curCallee     ssa.Value
 	immCap        map[*ssa.FreeVar]bool
 	sharedHeaps   map[string]bool
 	assertBound   map[int]bool
